@@ -154,6 +154,16 @@ def build(outdir, ovjson, config="cgo", pkg="./cmd/mcworker", name="mcworker", r
     return out
 
 
+def worker_for(bins, key):
+    """A scenario key may pin its build config with a dot-component: "C07.nocgo" runs in bins["nocgo"]."""
+    for part in key.split(".")[1:]:
+        if part in BUILD_CONFIGS:
+            if part not in bins:
+                raise ToolingError("scenario %s needs build config %r: list it in props.PROPS[...]['configs']" % (key, part))
+            return bins[part]
+    return bins["cgo"] if "cgo" in bins else list(bins.values())[0]
+
+
 def scenario_info(worker, prop, tier):
     p = subprocess.run([worker, "-prop", prop, "-tier", tier], stdout=subprocess.PIPE, stderr=subprocess.PIPE, text=True)
     if p.returncode != 0:
@@ -336,7 +346,7 @@ def run_built(args, seed, bins, missing_hooks, ovjson, pcfg, t0):
         with open(args.replay) as fh:
             doc = json.load(fh)
         key = doc["scenario"]
-        p = subprocess.run([worker, "-scen", key, "-tier", doc.get("tier", tier), "-replay", args.replay], env=worker_env(bins, 4))
+        p = subprocess.run([worker_for(bins, key), "-scen", key, "-tier", doc.get("tier", tier), "-replay", args.replay], env=worker_env(bins, 4))
         return p.returncode
 
     logdir = os.path.join(BUILD, "logs")
@@ -355,7 +365,7 @@ def run_built(args, seed, bins, missing_hooks, ovjson, pcfg, t0):
         for f in glob.glob(os.path.join(logdir, key + ".*.err")):
             os.remove(f)
         ncases = inf["Cases"]
-        pool = Pool(worker, key, tier, ncases, deadline, args.procs, env, logdir)
+        pool = Pool(worker_for(bins, key), key, tier, ncases, deadline, args.procs, env, logdir)
         ts = time.time()
         pool.run()
         res = sorted(pool.results, key=lambda r: r["case"])
